@@ -34,6 +34,15 @@ type instr struct {
 	// selsend: the channels and the values of the send cases
 	Schs []int `json:"schs"`
 	Vs   []int `json:"vs"`
+	// selnb (select with default, in a loop of N iterations when N > 1): what is added to acc when a
+	// send case proceeds / when the default clause runs
+	N    int `json:"n"`
+	Hit  int `json:"hit"`
+	Dflt int `json:"dflt"`
+	// recvok, loopok: what is added to acc when the channel turns out to be closed
+	Nok int `json:"nok"`
+	// defer: the body of the deferred function
+	Ds []instr `json:"ds"`
 }
 
 type prog struct {
@@ -61,7 +70,14 @@ func concretise(p prog) string {
 	var b strings.Builder
 	b.WriteString("package main\n\nimport \"p\"\n\nvar _ = p.Send\n\nfunc main() {\n")
 	for i, c := range p.Chans {
+		if c < 0 { // a nil channel
+			fmt.Fprintf(&b, "\tvar c%d chan int\n", i+1)
+			continue
+		}
 		fmt.Fprintf(&b, "\tc%d := make(chan int, %d)\n", i+1, c)
+	}
+	for i := range p.Chans { // a shape may leave a channel unused
+		fmt.Fprintf(&b, "\t_ = c%d\n", i+1)
 	}
 	native := map[int]bool{}
 	for _, t := range p.Native {
@@ -110,14 +126,8 @@ func concretise(p prog) string {
 		}
 		return "go " + call(t)
 	}
-	body := func(ins []instr, indent string, t int) {
-		// in the styles with parameters every sent constant goes through the numeric parameter k (passed
-		// as the thread's number), so a goroutine that does not receive its arguments intact prints wrong sums
-		kexpr := ""
-		if t > 1 && p.Style != 0 {
-			kexpr = fmt.Sprintf(" + k - %d", t)
-		}
-		fmt.Fprintf(&b, "%sacc := 0%s\n%s_ = acc\n", indent, kexpr, indent)
+	var emit func(ins []instr, indent string, kexpr string)
+	emit = func(ins []instr, indent string, kexpr string) {
 		for _, i := range ins {
 			switch i.Op {
 			case "send":
@@ -128,6 +138,14 @@ func concretise(p prog) string {
 				fmt.Fprintf(&b, "%sacc += <-c%d\n", indent, i.Ch)
 			case "recvp":
 				fmt.Fprintf(&b, "%sprintln(<-c%d)\n", indent, i.Ch)
+			case "recvok":
+				if p.Style == 0 {
+					fmt.Fprintf(&b, "%sif v, ok := <-c%d; ok {\n%s\tacc += v\n%s} else {\n%s\tacc += v + %d\n%s}\n", indent, i.Ch, indent, indent, indent, i.Nok, indent)
+				} else {
+					fmt.Fprintf(&b, "%s{\n%s\tv, ok := <-c%d\n%s\tacc += v\n%s\tif !ok {\n%s\t\tacc += %d\n%s\t}\n%s}\n", indent, indent, i.Ch, indent, indent, indent, i.Nok, indent, indent)
+				}
+			case "loopok":
+				fmt.Fprintf(&b, "%sfor {\n%s\tv, ok := <-c%d\n%s\tif !ok {\n%s\t\tacc += %d\n%s\t\tbreak\n%s\t}\n%s\tacc += v\n%s}\n", indent, indent, i.Ch, indent, indent, i.Nok, indent, indent, indent, indent)
 			case "close":
 				fmt.Fprintf(&b, "%sclose(c%d)\n", indent, i.Ch)
 			case "go":
@@ -153,12 +171,59 @@ func concretise(p prog) string {
 					fmt.Fprintf(&b, "%scase c%d <- %d:\n", indent, c, i.Vs[k])
 				}
 				fmt.Fprintf(&b, "%s}\n", indent)
+			case "selnb":
+				ind := indent
+				if i.N > 1 {
+					fmt.Fprintf(&b, "%sfor i := 0; i < %d; i++ {\n", indent, i.N)
+					ind = indent + "\t"
+				}
+				fmt.Fprintf(&b, "%sselect {\n", ind)
+				for _, c := range i.Chs {
+					fmt.Fprintf(&b, "%scase v := <-c%d:\n%s\tacc += v\n", ind, c, ind)
+				}
+				for k, c := range i.Schs {
+					fmt.Fprintf(&b, "%scase c%d <- %d:\n%s\tacc += %d\n", ind, c, i.Vs[k], ind, i.Hit)
+				}
+				fmt.Fprintf(&b, "%sdefault:\n%s\tacc += %d\n%s}\n", ind, ind, i.Dflt, ind)
+				if i.N > 1 {
+					fmt.Fprintf(&b, "%s}\n", indent)
+				}
 			case "print":
 				fmt.Fprintf(&b, "%sprintln(acc)\n", indent)
 			case "printc":
 				fmt.Fprintf(&b, "%sprintln(%d)\n", indent, i.V)
+			case "lenp":
+				fmt.Fprintf(&b, "%sprintln(len(c%d))\n", indent, i.Ch)
+			case "capp":
+				fmt.Fprintf(&b, "%sprintln(cap(c%d))\n", indent, i.Ch)
+			case "lenacc":
+				fmt.Fprintf(&b, "%sacc += len(c%d)\n", indent, i.Ch)
+			case "add":
+				fmt.Fprintf(&b, "%sacc += %d\n", indent, i.V)
+			case "defer":
+				if len(i.Ds) == 1 && i.Ds[0].Op == "close" {
+					fmt.Fprintf(&b, "%sdefer close(c%d)\n", indent, i.Ds[0].Ch)
+				} else {
+					fmt.Fprintf(&b, "%sdefer func() {\n", indent)
+					emit(i.Ds, indent+"\t", kexpr)
+					fmt.Fprintf(&b, "%s}()\n", indent)
+				}
+			case "recover":
+				fmt.Fprintf(&b, "%srecover()\n", indent)
+			case "panic":
+				fmt.Fprintf(&b, "%spanic(\"boom\")\n", indent)
 			}
 		}
+	}
+	body := func(ins []instr, indent string, t int) {
+		// in the styles with parameters every sent constant goes through the numeric parameter k (passed
+		// as the thread's number), so a goroutine that does not receive its arguments intact prints wrong sums
+		kexpr := ""
+		if t > 1 && p.Style != 0 {
+			kexpr = fmt.Sprintf(" + k - %d", t)
+		}
+		fmt.Fprintf(&b, "%sacc := 0%s\n%s_ = acc\n", indent, kexpr, indent)
+		emit(ins, indent, kexpr)
 	}
 	for _, t := range scriggoThreads {
 		fmt.Fprintf(&b, "\tt%d = %s {\n", t, sig)
@@ -224,14 +289,16 @@ func main() {
 				return out
 			}
 			r := rand.New(rand.NewSource(seed + int64(c.ID)))
+			hangs := 0
 			for _, gmp := range []int{1, 2, 4, 16} {
 				old := runtime.GOMAXPROCS(gmp)
-				for k := 0; k < *flagReps; k++ {
+				// (a program that hung twice is not run again: every hang costs the whole timeout)
+				for k := 0; k < *flagReps && hangs < 2; k++ {
 					yieldSeed.Store(r.Int63())
 					yieldOn.Store(k > 0 || gmp > 1) // first run at GOMAXPROCS=1 is undisturbed
 					var mu sync.Mutex
 					var printed []int
-					ctx, cancel := context.WithTimeout(context.Background(), 10*time.Second)
+					ctx, cancel := context.WithTimeout(context.Background(), 5*time.Second)
 					outcome, detail := "ok", ""
 					func() {
 						defer func() {
@@ -253,6 +320,7 @@ func main() {
 						case err == nil:
 						case errors.Is(err, context.DeadlineExceeded):
 							outcome = "deadlock-or-hang"
+							hangs++
 						case errors.As(err, &pe):
 							outcome, detail = "panic", pe.Error()
 						default:
